@@ -247,48 +247,39 @@ theorem setNext_refines (j : Journal) (key o i : Int) :
     split <;> simp
   · rfl
 
-theorem setSeqNum_refines {j : Journal} (h : Handle) (out inn : Option Int)
-    (hok : (Op.setSeqNum h out inn).HalfApplies = false) :
+theorem setSeqNum_refines {j : Journal} (h : Handle) (out inn : Option Int) :
     abs (setSeqNum j h out inn).1 = (abs j).setSeqNum h out inn := by
   unfold setSeqNum JSpec.setSeqNum
-  simp only [Op.HalfApplies] at hok
   by_cases h1 : out.any (· ≤ 0) = true
   · simp [h1]
   by_cases h2 : inn.any (· ≤ 0) = true
   · simp [h1, h2]
-  by_cases h3 : (!(fits (effIn h inn - 1) && fits (effOut h out - 1) && fits h.key)) = true
+  by_cases h3 : (!(fits (effIn h inn - 1) && fits (effOut h out - 1) && fits h.key &&
+      fits (effIn h inn) && fits (effOut h out))) = true
   · simp [h1, h2, h3]
-  have h3' : (fits (effIn h inn - 1) && fits (effOut h out - 1) && fits h.key) = true := by simpa using h3
-  have h45 : fits (effIn h inn) = true ∧ fits (effOut h out) = true := by
-    simp only [Bool.and_eq_true] at h3'
-    simp only [Bool.not_eq_true] at h1 h2
-    simp only [h1, h2, Bool.or_self, Bool.not_false, Bool.true_and, Bool.and_eq_false_imp,
-      Bool.and_eq_true, Bool.not_eq_eq_eq_not, Bool.not_false] at hok
-    exact hok h3'
-  simp only [h1, h2, h3, h45.1, h45.2, Bool.false_eq_true, if_false, Bool.not_true, Bool.or_self]
+  simp only [h1, h2, h3, Bool.false_eq_true, if_false, Bool.or_self]
   exact setNext_refines j h.key (effOut h out) (effIn h inn)
 
 /-- every call refines its abstract effect (the state part) -/
-theorem applyOp_refines {j : Journal} (hinv : JInv j) (op : Op) (hok : op.HalfApplies = false) :
+theorem applyOp_refines {j : Journal} (hinv : JInv j) (op : Op) :
     abs (applyOp j op).1 = (abs j).applyOp op := by
   cases op with
   | createOrLoad t s => exact congrArg Prod.fst (createOrLoad_refines hinv t s)
   | persist msg h dir => exact congrArg Prod.fst (persist_refines hinv msg h dir)
-  | setSeqNum h out inn => exact setSeqNum_refines h out inn hok
+  | setSeqNum h out inn => exact setSeqNum_refines h out inn
   | sessions => rfl
   | recover => rfl
   | recoverMsg => rfl
   | getAll => rfl
 
-theorem applyOps_refines {j : Journal} (hinv : JInv j) (ops : List Op)
-    (hok : ∀ op ∈ ops, op.HalfApplies = false) :
+theorem applyOps_refines {j : Journal} (hinv : JInv j) (ops : List Op) :
     abs (applyOps j ops) = (abs j).applyOps ops := by
   induction ops generalizing j with
   | nil => rfl
   | cons op ops ih =>
     simp only [applyOps, JSpec.applyOps, List.foldl_cons]
-    have h1 := applyOp_refines hinv op (hok op (List.mem_cons_self ..))
-    have := ih (applyOp_inv op hinv) (fun o ho => hok o (List.mem_cons_of_mem _ ho))
+    have h1 := applyOp_refines hinv op
+    have := ih (applyOp_inv op hinv)
     simp only [applyOps, JSpec.applyOps] at this
     rw [this, h1]
 
